@@ -418,3 +418,28 @@ func Decode(chunks []Chunk, encD *big.Int, knownMaster []byte) (*Decoded, error)
 	}
 	return d, nil
 }
+
+// SealPadded seals a CBC record with an explicit padding length pad (0..255; len(plain)+32+pad+1 must be a
+// multiple of 16). With corrupt set, one padding byte (chosen by which) is altered after padding.
+func SealPadded(suite uint16, macKey, key []byte, seq uint64, typ byte, explicit, plain []byte, pad int, corrupt bool, which int) []byte {
+	blk := rsm4.Must(key)
+	hdr := []byte{typ, byte(Version >> 8), byte(Version & 0xff)}
+	mh := append(seqBytes(seq), typ, hdr[1], hdr[2], byte(len(plain)>>8), byte(len(plain)))
+	mac := rsm3.HMAC(macKey, append(mh, plain...))
+	pt := append(append([]byte{}, plain...), mac...)
+	for i := 0; i <= pad; i++ {
+		pt = append(pt, byte(pad))
+	}
+	if corrupt {
+		// any of the pad+1 trailing bytes except that the result must still differ
+		pos := len(pt) - 1 - which%(pad+1)
+		pt[pos] ^= 0x01 + byte(which%7)
+	}
+	if len(pt)%16 != 0 {
+		panic("SealPadded: not block aligned")
+	}
+	ct := make([]byte, len(pt))
+	cipher.NewCBCEncrypter(blk, explicit).CryptBlocks(ct, pt)
+	body := append(append([]byte{}, explicit...), ct...)
+	return append(append(hdr, byte(len(body)>>8), byte(len(body))), body...)
+}
